@@ -778,11 +778,15 @@ template <class P> static void runAll(verif::Run& run) {
                 out.push_back({ref::add(u, ref::scale(L[k], 1e-2L)), fmt("u+1e-2*w%d", k)});
                 out.push_back({ref::add(u, ref::scale(L[k], 2e-3L)), fmt("u+2e-3*w%d", k)});
                 out.push_back({ref::add(u, ref::scale(L[k], 1e-5L)), fmt("u+1e-5*w%d", k)});
+                // the construction is documented for any non-zero v: its length must not matter
+                out.push_back({ref::scale(L[k], 1e9L), fmt("1e9*w%d", k)});
+                out.push_back({ref::scale(L[k], 1e-9L), fmt("1e-9*w%d", k)});
+                out.push_back({ref::scale(ref::add(u, ref::scale(L[k], 1e-2L)), 1e7L), fmt("1e7*(u+1e-2*w%d)", k)});
             }
             out.push_back({ref::scale(u, 2), "2u"}); out.push_back({ref::scale(u, -1), "-u"}); out.push_back({ref::vec(0, 0, 0), "zero"});
             return out;
         };
-        const int nV = 26 * 4 + 3;
+        const int nV = 26 * 7 + 3;
         verif::Odometer od; od.dim("v", nV); od.dim("u", 26); od.dim("xj", 3); od.dim("xi", 3);
         run.parallel(NM("twoaxes"), od.size(), [&](int64_t idx) {
             auto d = od.digits(idx);
